@@ -486,6 +486,16 @@ class WriterTr:
             raise Unsupported(f".name of a {base.ty}")
         if isinstance(n, ast.Constant) and isinstance(n.value, str):
             return V(q(n.value), "Name")
+        if isinstance(n, ast.IfExp):
+            kind = self.classify(n.test, st)
+            if kind[0] == "static":
+                return self.ev(n.body if kind[1] else n.orelse, st)
+            if kind[0] == "bool":
+                a, b = self.ev(n.body, st), self.ev(n.orelse, st)
+                if a.ty != b.ty or a.extra != b.extra:
+                    raise Unsupported("conditional expression with branches of different type")
+                return V(f"(if {kind[1].lean} then {a.lean} else {b.lean})", a.ty, a.extra)
+            raise Unsupported(f"conditional expression on {self.text(n.test)}")
         if isinstance(n, ast.Call):
             f = self.text(n.func)
             if f == "getattr" and len(n.args) == 2:
@@ -623,6 +633,22 @@ class WriterTr:
                     return None
                 if meth == "append":
                     self.add_part(st, field, f"[{self.leaf(field, self.ev(c.args[0], st))}]")
+                    return None
+                if meth == "extend" and isinstance(c.args[0], (ast.ListComp, ast.GeneratorExp)) \
+                        and len(c.args[0].generators) == 1 and not c.args[0].generators[0].ifs \
+                        and isinstance(c.args[0].generators[0].target, ast.Name):
+                    # m.f.extend([e for v in xs])  ==  for v in xs: m.f.append(e)
+                    g = c.args[0].generators[0]
+                    loop = ast.For(target=g.target, iter=g.iter, orelse=[], body=[ast.Expr(value=ast.Call(
+                        func=ast.Attribute(value=obj, attr="append", ctx=ast.Load()), args=[c.args[0].elt], keywords=[]))])
+                    self.for_(ast.fix_missing_locations(loop), st)
+                    return None
+                if meth == "extend" and len(c.args) == 1:
+                    # m.f.extend(xs)  ==  for v in xs: m.f.append(v)
+                    loop = ast.For(target=ast.Name(id="_v", ctx=ast.Store()), iter=c.args[0], orelse=[], body=[ast.Expr(value=ast.Call(
+                        func=ast.Attribute(value=obj, attr="append", ctx=ast.Load()), args=[ast.Name(id="_v", ctx=ast.Load())],
+                        keywords=[]))])
+                    self.for_(ast.fix_missing_locations(loop), st)
                     return None
             if self.text(c.func).startswith("logger."):
                 return None
@@ -979,6 +1005,10 @@ class WriterTr:
                 if f[3] == "FloatExactOrInterval":
                     row.setdefault(f[0], "set?")
         self.table_row = (self.msgtype, [(f[0], row[f[0]]) for f in self.msgs[self.msgtype] if f[0] in row])
+        # bound variables renumbered in order of appearance: the text does not depend on the order of the python statements
+        import re
+        seen = {}
+        r = re.sub(r"\bx(\d+)\b", lambda m: seen.setdefault(m.group(0), f"v{len(seen) + 1}"), r)
         return f"{doc}def {self.t.name} {self.t.params} : PB :=\n  {r}\n"
 
 
